@@ -150,13 +150,6 @@ const (
 	nInVals    = 22
 )
 
-func b2i(b bool) int {
-	if b {
-		return 1
-	}
-	return 0
-}
-
 func numbered(text string) string {
 	var b strings.Builder
 	for i, l := range asmLines(text) {
